@@ -29,7 +29,7 @@ PcbObs(n) == {[same |-> ToSet(n.pcb[k].same), co |-> n.pcb[k].co, cs |-> n.pcb[k
                dg |-> n.pcb[k].dg, data |-> n.pcb[k].data] : k \in DOMAIN n.pcb}
 
 NodeAttrs(n) == [ty |-> n.ty, perm |-> n.perm, sb |-> n.sb, size |-> n.size, uid |-> n.uid, gid |-> n.gid,
-             link |-> n.link, maj |-> n.maj, min |-> n.min, mtime |-> n.mtime, xa |-> n.xa]
+             link |-> n.link, maj |-> n.maj, min |-> n.min, mt |-> n.mt, xa |-> n.xa]
 
 Common(L, o) == DOMAIN o.nodes \cap PathsOf(L)
 NoErr(o) == \A p \in DOMAIN o.nodes : o.nodes[p].err = ""
@@ -74,7 +74,9 @@ TraceInit == l = 1 /\ toc = <<>> /\ ws = 0
 TraceNext ==
     /\ l <= Len(TraceLog)
     /\ LET ev == TraceLog[l]
-           m == Miss(ev.ents, ev.ws, ev.obs)
+           m == IF "early" \in DOMAIN ev                 \* clone-early line: [store, n, rep, early]
+                THEN (IF ev.early = EarlyCloneRef(ev.n) THEN "" ELSE "early-clone,")
+                ELSE Miss(ev.ents, ev.ws, ev.obs)
        IN IF m = "" THEN TRUE ELSE PrintT("VMISS " \o ToString(l) \o " " \o m)
     /\ l' = l + 1
     /\ UNCHANGED <<toc, ws>>
